@@ -128,9 +128,13 @@ def run(ck, fams):
                     ck.query('sat')
                 ck.counterexample(sig, what, rep)
             elif status == 'unknown':
-                ck.obligation(None)
                 ck.query('unknown')
-                ck.undecided(what)
+                if 'random' in fname:
+                    # seed-selected ADDITIONAL tree that the solver could not decide: excluded from the claim, listed in the evidence
+                    ck.coverage.setdefault('undecided_seeded_trees', []).append(str(what)[:200])
+                else:
+                    ck.obligation(None)
+                    ck.undecided(what)
         st['wall_s'] = round(time.time() - t0, 1)
         stats[fname] = st
         if items:
